@@ -441,3 +441,41 @@ def on_bound(job, nat):
 
 def finding_key(job, verdict, inputs, named):
     return f'{job.get("family")}|{verdict}'
+
+
+def _negative_length_accepted(node):
+    """Canary: the negative string length check is gone (b'l-3:' loops for ever)."""
+    import ast
+    for n in ast.walk(node):
+        if isinstance(n, ast.If) and isinstance(n.test, ast.Compare) and isinstance(n.test.left, ast.Name) and n.test.left.id == 'length':
+            n.test = ast.Constant(False)
+            return True
+    return False
+
+
+def _index_error_escapes(node):
+    """Canary: bdecode no longer turns IndexError (truncated input) into DecodeError."""
+    import ast
+    for n in ast.walk(node):
+        if isinstance(n, ast.ExceptHandler) and isinstance(n.type, ast.Tuple) and len(n.type.elts) == 3:
+            n.type.elts = n.type.elts[:2]
+            return True
+    return False
+
+
+def _dict_keys_unsorted(node):
+    """Canary: dictionaries are encoded in insertion order instead of sorted key order."""
+    import ast
+    for n in ast.walk(node):
+        if isinstance(n, ast.Call) and isinstance(n.func, ast.Name) and n.func.id == 'sorted':
+            n.func = ast.Name(id='list', ctx=ast.Load())
+            return True
+    return False
+
+
+CANARIES = [
+    dict(name='negative-string-length', target='lbry.dht.serialization.bencoding:_bdecode', mutate=_negative_length_accepted,
+         job=dict(family='garbage', fn='garbage', args=(4, None), loop_bound=7, max_depth=18)),
+    dict(name='truncated-input-raises', target='lbry.dht.serialization.bencoding:bdecode', mutate=_index_error_escapes,
+         job=dict(family='truncate', fn='truncate', args=('ping',), loop_bound=128, max_depth=40)),
+]
